@@ -47,12 +47,23 @@ def frame_for(names):
     return df
 
 
-def observe(formula, data_names, ctx_names):
+def base_name(v) -> str:
+    """variables of attribute access are reported as dotted paths (z.T.T): the object read is the part before the first dot"""
+    return str(v).split(".", 1)[0]
+
+
+def observe(formula, data_names, ctx_names, cform="dict"):
     from formulaic import model_matrix
     from formulaic.errors import FactorEvaluationError
+    from formulaic.utils.layered_mapping import LayeredMapping
 
+    c = ctx_for(ctx_names)
+    if cform == "lm":
+        c = LayeredMapping(c)
+    elif cform == "lm-named":
+        c = LayeredMapping(c, name="user")
     try:
-        mm = model_matrix(formula, frame_for(data_names), context=ctx_for(ctx_names), output="numpy")
+        mm = model_matrix(formula, frame_for(data_names), context=c, output="numpy")
     except FactorEvaluationError:
         return {"ok": False}
     except Exception as e:  # noqa
@@ -60,9 +71,9 @@ def observe(formula, data_names, ctx_names):
     spec = mm.model_spec
     back = {v: k for k, v in COLNAME.items()}
     return {"ok": True, "names": list(spec.column_names), "cells": numpy.asarray(mm, dtype=float).T.tolist(),
-            "sources": {back.get(str(v), str(v)): (v.source or "None") for v in spec.variables},
-            "by_source": {str(k): sorted(back.get(str(v), str(v)) for v in vs) for k, vs in spec.variables_by_source.items()},
-            "required_after": sorted(back.get(str(v), str(v)) for v in spec.required_variables)}
+            "sources": {back.get(base_name(v), base_name(v)): (v.source or "None") for v in sorted(spec.variables, key=lambda v: -len(str(v)))},
+            "by_source": {str(k): sorted({back.get(base_name(v), base_name(v)) for v in vs}) for k, vs in spec.variables_by_source.items()},
+            "required_after": sorted({back.get(base_name(v), base_name(v)) for v in spec.required_variables})}
 
 
 def expected_of(case):
@@ -77,7 +88,7 @@ def replay_resolve(case):
     from formulaic import Formula
 
     formula = case["formula"]
-    base = {"formula": formula, "data": case["data"], "context": case["context"]}
+    base = {"formula": formula, "data": case["data"], "context": case["context"], "context_form": case["cform"]}
     bad = []
     if formula == "0 + I + x" and "I" not in case["data"]:
         return [], 0        # the name then denotes the transform itself: looking a function up as a column is outside the property
@@ -110,25 +121,25 @@ def replay_resolve(case):
     if req != sorted(case["required_before"]):
         bad.append({**base, "why": "Formula.required_variables", "observed": req, "expected": sorted(case["required_before"])})
     exp = expected_of(case)
-    cmp("build", observe(formula, case["data"], case["context"]), exp)
+    cmp("build", observe(formula, case["data"], case["context"], case["cform"]), exp)
     n = 2
     if case["ok"] and formula == "0 + I + x":
         keep = [d for d in case["data"] if d in case["required_before"]]
-        if not observe(formula, keep, case["context"])["ok"]:
+        if not observe(formula, keep, case["context"], case["cform"])["ok"]:
             bad.append({**base, "why": "sufficiency: the reported required variables omit a data column named like a transform"})
         n += 1
     elif case["ok"]:
         # sufficiency: data restricted to exactly the required columns
         keep = [d for d in case["data"] if d in case["required_before"]]
-        e2 = expected_of(BYKEY[(tuple(keep), tuple(case["context"]), formula)])
-        cmp("sufficiency (data restricted to the required variables)", observe(formula, keep, case["context"]), e2)
+        e2 = expected_of(BYKEY[(tuple(keep), tuple(case["context"]), formula, case["cform"])])
+        cmp("sufficiency (data restricted to the required variables)", observe(formula, keep, case["context"], case["cform"]), e2)
         if not e2["ok"]:
             bad.append({**base, "why": "model: restriction fails"})
         n += 1
         # necessity: remove each required data column
         for v in [d for d in case["data"] if d in case["required_before"]]:
             less = [d for d in case["data"] if d != v]
-            cmp(f"necessity (column {COLNAME[v]!r} removed)", observe(formula, less, case["context"]), expected_of(BYKEY[(tuple(less), tuple(case["context"]), formula)]))
+            cmp(f"necessity (column {COLNAME[v]!r} removed)", observe(formula, less, case["context"], case["cform"]), expected_of(BYKEY[(tuple(less), tuple(case["context"]), formula, case["cform"])]))
             n += 1
     return bad, n
 
@@ -163,11 +174,18 @@ def replay_case(case):
     return replay_resolve(case) if case["kind"] == "resolve" else replay_dot(case)
 
 
+def _m_dotted(match, case, detail):
+    """D37: a value reached through attribute access is reported by its dotted path, which is not a column name"""
+    obs, exp = detail.get("observed"), detail.get("expected")
+    return (detail.get("why") == "Formula.required_variables" and isinstance(obs, list) and isinstance(exp, list) and any("." in o for o in obs)
+            and sorted({base_name(o) for o in obs}) == sorted(exp))
+
+
 def _m_transforms_name(match, case, detail):
     return detail.get("why", "").startswith("sufficiency: the reported required variables omit a data column named like a transform")
 
 
-MATCHERS = {"required_variables_of_transform_named_column": _m_transforms_name}
+MATCHERS = {"required_variables_of_transform_named_column": _m_transforms_name, "required_variables_dotted_attribute_path": _m_dotted}
 
 
 def run(ctx: Ctx) -> None:
@@ -186,7 +204,7 @@ def run(ctx: Ctx) -> None:
     out.unlink()
     if len(cases) != r.distinct:
         raise MachineryError(f"emission incomplete: {len(cases)} of {r.distinct}")
-    BYKEY = {(tuple(c["data"]), tuple(c["context"]), c["formula"]): c for c in cases if c["kind"] == "resolve"}
+    BYKEY = {(tuple(c["data"]), tuple(c["context"]), c["formula"], c["cform"]): c for c in cases if c["kind"] == "resolve"}
     res = pmap("harness.props.c17", "replay_case", cases, chunk=20)
     for c, (bad, n) in zip(cases, res):
         ctx.traces += n
@@ -194,7 +212,7 @@ def run(ctx: Ctx) -> None:
         if c["kind"] == "resolve" and set(c["data"]) & set(c["context"]):
             ctx.nontrivial.add(jhash([c["data"], c["context"], c["formula"]]))
         for b in bad:
-            ctx.violation({k: b.get(k) for k in ("formula", "data", "context", "columns")} | {"why": b["why"]}, b, kind="replay")
+            ctx.violation({k: b.get(k) for k in ("formula", "data", "context", "context_form", "columns")} | {"why": b["why"]}, b, kind="replay")
     for c in [c for c in cases if c["kind"] == "resolve" and c["formula"] == "0 + I(x) + z" and c["data"] == ["z"] and c["context"] == ["x", "I"]][:1]:
         ctx.sample({"formula": c["formula"], "data": c["data"], "context": c["context"], "expected_sources": c["sources"], "columns": c["columns"]})
     ctx.exhaustive = True
